@@ -50,36 +50,22 @@ Qed.
 Lemma code_wf_nth : forall c k i, code_wf c = true -> nth_error c k = Some i -> instr_wf (length c) k i = true.
 Proof. unfold code_wf; intros c k i H Hn. exact (code_wf_from_nth _ _ 0%nat _ _ H Hn). Qed.
 
-Lemma spans_wf_nth : forall src c k i, spans_wf src c = true -> nth_error c k = Some i -> span_wf src i = true.
-Proof.
-  unfold spans_wf; intros src c k i H Hn. rewrite forallb_forall in H. apply H. eapply nth_error_In; eauto.
-Qed.
-
-Lemma spans_wf_None : forall c, spans_wf None c = true.
-Proof.
-  unfold spans_wf; intros c. apply forallb_forall. intros i _. unfold span_wf.
-  destruct (i_op i); try reflexivity. destruct (i_arg i); reflexivity.
-Qed.
-
 Lemma ftab_wf_lookup : forall ft id d c, ftab_wf ft = true -> f_lookup ft id = Some d -> f_code d = Some c ->
-  code_wf c = true /\ spans_wf (Some (f_expr d)) c = true.
+  code_wf c = true.
 Proof.
   unfold ftab_wf, f_lookup; intros ft id d c H Hl Hc. rewrite forallb_forall in H.
-  specialize (H d (nth_error_In _ _ Hl)). unfold fentry_wf in H. rewrite Hc in H. apply andb_true_iff in H. exact H.
+  specialize (H d (nth_error_In _ _ Hl)). unfold fentry_wf in H. rewrite Hc in H. exact H.
 Qed.
 
 (* ------------------------------------------------------------------ the frame invariant *)
-Definition span_ok (src : option string) (p : Z * Z) : Prop := span_in src (fst p) (snd p) = true.
-
 (* c, src: code and source text of the activation (never change) *)
 Definition frame_ok (c : code) (src : option string) (fr : frame) : Prop :=
   fr_code fr = c /\ fr_src fr = src /\ fr_top fr <= stack_size /\
-  Forall (fun t => t < stack_size) (fr_blocks fr) /\ Forall (fun t => t < stack_size) (fr_fblocks fr) /\
-  Forall (span_ok src) (fr_details fr).
+  Forall (fun t => t < stack_size) (fr_blocks fr) /\ Forall (fun t => t < stack_size) (fr_fblocks fr).
 
 Definition machine_ok (m : machine) : Prop :=
   let fr := m_fr m in
-  code_wf (fr_code fr) = true /\ spans_wf (fr_src fr) (fr_code fr) = true /\
+  code_wf (fr_code fr) = true /\
   frame_ok (fr_code fr) (fr_src fr) fr /\ 0 <= fr_pc fr.
 
 Definition callee_ok (call : machine -> result) : Prop := forall m, machine_ok m -> res_ok (call m).
@@ -87,11 +73,11 @@ Definition callee_ok (call : machine -> result) : Prop := forall m, machine_ok m
 Lemma new_frame_ok : forall c src, frame_ok c src (new_frame c src).
 Proof. intros; unfold frame_ok, new_frame, stack_size; cbn. repeat split; try constructor; lia. Qed.
 
-Lemma new_frame_machine_ok : forall c src w, code_wf c = true -> spans_wf src c = true ->
+Lemma new_frame_machine_ok : forall c src w, code_wf c = true ->
   machine_ok {| m_fr := new_frame c src; m_w := w |}.
 Proof.
-  intros c src w H1 H2. unfold machine_ok; cbn [m_fr]. change (fr_code (new_frame c src)) with c.
-  change (fr_src (new_frame c src)) with src. split; [exact H1|]. split; [exact H2|]. split; [apply new_frame_ok|].
+  intros c src w H1. unfold machine_ok; cbn [m_fr]. change (fr_code (new_frame c src)) with c.
+  change (fr_src (new_frame c src)) with src. split; [exact H1|]. split; [apply new_frame_ok|].
   cbn; lia.
 Qed.
 
@@ -160,13 +146,10 @@ Section StepSafety.
     - destruct (raise_top _ _ _) as [[l d]|]; [|discriminate]. intros [= <-]. unfold mid in *. fr_unfold. intuition lia.
   Qed.
 
-  Lemma span_ok_00 : span_ok src (0, 0).
-  Proof. unfold span_ok, span_in; destruct src; cbn [fst snd]; auto. unfold zlen. rewrite !andb_true_iff, !Z.leb_le. lia. Qed.
-
   Lemma last_detail_mid : forall fr, mid fr -> mid (last_detail fr) /\ fr_dice (last_detail fr) = fr_dice fr.
   Proof.
-    unfold last_detail; intros fr H. destruct (fr_details fr) eqn:Hd; auto. unfold mid in *. fr_unfold.
-    intuition auto. repeat constructor. apply span_ok_00.
+    unfold last_detail; intros fr H. destruct (fr_details fr) eqn:Hd; auto; unfold mid in *; fr_unfold;
+    intuition auto.
   Qed.
 
   Lemma jump_ready : forall fr off, mid fr -> -1 <= pc0 + off -> ready (jump fr off).
@@ -217,9 +200,9 @@ Section StepSafety.
     destruct (limit_hit E _); [exact Logic.I|].
     destruct (f_lookup (e_ftab E) cid) as [d|] eqn:Hl; [|exact Logic.I].
     destruct (f_code d) as [body|] eqn:Hc; [|exact Logic.I].
-    destruct (ftab_wf_lookup _ _ _ _ Hft Hl Hc) as [W1 W2].
+    pose proof (ftab_wf_lookup _ _ _ _ Hft Hl Hc) as W1.
     match goal with |- rok (match call ?sub with _ => _ end) =>
-      pose proof (sub_result_ok sub (new_frame_machine_ok _ _ _ W1 W2)) as Hs; destruct (call sub) end;
+      pose proof (sub_result_ok sub (new_frame_machine_ok _ _ _ W1)) as Hs; destruct (call sub) end;
     cbn [res_ok] in Hs; rok_tac; exact Hs.
   Qed.
 
@@ -232,9 +215,9 @@ Section StepSafety.
     destruct (alloc_map _ _) as [mapid h1].
     destruct (limit_hit E _); [exact Logic.I|].
     destruct (f_code d) as [body|] eqn:Hc; [|exact Logic.I].
-    destruct (ftab_wf_lookup _ _ _ _ Hft Hl Hc) as [W1 W2].
+    pose proof (ftab_wf_lookup _ _ _ _ Hft Hl Hc) as W1.
     match goal with |- rok (match call ?sub with _ => _ end) =>
-      pose proof (sub_result_ok sub (new_frame_machine_ok body None _ W1 (spans_wf_None body))) as Hs; destruct (call sub) end;
+      pose proof (sub_result_ok sub (new_frame_machine_ok body None _ W1)) as Hs; destruct (call sub) end;
     cbn [res_ok] in Hs; rok_tac; exact Hs.
   Qed.
 
@@ -337,7 +320,7 @@ Section StepSafety.
 
   (* ------------------------------------------------------------------ one instruction *)
   Definition step_safe (op : opcode) : Prop :=
-    forall o m len, mid (m_fr m) -> instr_wf len (Z.to_nat pc0) (I op o) = true -> span_wf src (I op o) = true ->
+    forall o m len, mid (m_fr m) -> instr_wf len (Z.to_nat pc0) (I op o) = true ->
                     Q (step call rfuel E (I op o) m).
 
   Lemma Q_same : forall m, mid (m_fr m) -> Q (SNext m).
@@ -347,7 +330,7 @@ Section StepSafety.
     unfold mid, ready, post in *; fr_unfold;
     repeat match goal with H : _ /\ _ |- _ => destruct H end;
     repeat split; try assumption; try lia; try congruence;
-    try (constructor; first [assumption | lia | apply span_ok_00]).
+    try (constructor; first [assumption | lia]).
 
   Ltac q_fact :=
     repeat match goal with
@@ -385,7 +368,7 @@ Section StepSafety.
       | exfalso; congruence ]).
 
   Ltac q_start :=
-    intros o m len Hm Hwf Hsp; unfold step; cbn [i_op i_arg];
+    intros o m len Hm Hwf; unfold step; cbn [i_op i_arg];
     unfold instr_wf, jump_ok, is_oint, is_ostr, is_ospan, is_ost, is_ofn, is_oint_nonneg in Hwf; cbn [i_op i_arg] in Hwf;
     match type of Hwf with
     | true = true => idtac
@@ -449,7 +432,7 @@ Section StepSafety.
   Proof. unfold mid, frame_ok; intros fr t rest H Hb. rewrite Hb in H. destruct H as ((_ & _ & _ & H & _) & _). inversion H; auto. Qed.
   Lemma fblocks_head : forall fr t rest, mid fr -> fr_fblocks fr = t :: rest ->
     t < stack_size /\ Forall (fun t => t < stack_size) rest.
-  Proof. unfold mid, frame_ok; intros fr t rest H Hb. rewrite Hb in H. destruct H as ((_ & _ & _ & _ & H & _) & _). inversion H; auto. Qed.
+  Proof. unfold mid, frame_ok; intros fr t rest H Hb. rewrite Hb in H. destruct H as ((_ & _ & _ & _ & H) & _). inversion H; auto. Qed.
 
   Lemma step_block_no_panic : forall op, In op [OpBlockPush; OpBlockPop; OpFstrPush; OpFstrPop] -> step_safe op.
   Proof.
@@ -488,28 +471,19 @@ Section StepSafety.
     - destruct (to_string _ _ v); [apply IH|exact Logic.I].
   Qed.
 
-  Lemma span_in_substring : forall s b e, span_in (Some s) b e = true -> substring_b (bytes_of s) b e <> None.
-  Proof.
-    unfold span_in, substring_b; intros s b e H. rewrite !andb_true_iff, !Z.leb_le in H. destruct H as [[H1 H2] H3].
-    replace ((b <? 0) || (e <? b) || (zlen (bytes_of s) <? e)) with false; [discriminate|].
-    symmetry. rewrite !orb_false_iff, !Z.ltb_ge. lia.
-  Qed.
-
   Lemma step_def_expr_no_panic : step_safe OpPushDefExpr.
   Proof.
     q_start. destruct (negb _); [exact Logic.I|].
     destruct (push (VInt 100) (m_fr m)) as [fr1|] eqn:Hp.
     2:{ destruct (push_some (VInt 100) (m_fr m)) as [x Hx]; [apply Hm|congruence]. }
-    assert (P1 : post fr1 /\ fr_details fr1 = fr_details (m_fr m) /\ fr_src fr1 = fr_src (m_fr m)).
+    assert (P1 : post fr1).
     { unfold push in Hp. destruct (stack_size <=? fr_top (m_fr m)) eqn:Ht; [discriminate|]. apply Z.leb_gt in Ht.
       injection Hp as <-. unfold mid, post in *. fr_unfold. intuition lia. }
-    destruct P1 as (P1 & P2 & P3).
     destruct (fr_src fr1) as [s|] eqn:Hs; [|apply Q_next, P1].
     destruct (fr_details fr1) as [|[b e] ds] eqn:Hd; [apply Q_next, P1|].
     destruct (fr_dice fr1); [apply Q_next, P1|].
-    destruct (substring_b (bytes_of s) b e) eqn:Hsub; [apply Q_next, P1|].
-    exfalso. destruct P1 as ((_ & S1 & _ & _ & _ & D1) & _). rewrite Hd in D1. inversion D1 as [|? ? D2 _].
-    unfold span_ok in D2. cbn [fst snd] in D2. rewrite <- S1 in D2. rewrite Hs in D2. exact (span_in_substring _ _ _ D2 Hsub).
+    (* a span outside the text: the repaired push.def_expr skips the rewrite of the detail text *)
+    destruct (substring_b (bytes_of s) b e) eqn:Hsub; apply Q_next, P1.
   Qed.
 
   (* the step theorem: every opcode *)
@@ -545,7 +519,7 @@ Theorem C01_exec_no_panic_anystate : forall E, ftab_wf (e_ftab E) = true ->
   forall fuel m, machine_ok m -> res_ok (exec fuel E m).
 Proof.
   intros E Hft. induction fuel as [|f IH]; intros m Hm; [exact Logic.I|].
-  cbn [exec]. destruct Hm as (W1 & W2 & F & Hpc).
+  cbn [exec]. destruct Hm as (W1 & F & Hpc).
   destruct (zlen (fr_code (m_fr m)) <=? fr_pc (m_fr m)) eqn:Hlen; [destruct (fr_err (m_fr m)); exact Logic.I|].
   apply Z.leb_gt in Hlen.
   destruct (count_op E m) as [m1 over] eqn:Hc. pose proof (count_op_frame _ _ _ _ Hc) as Hfr.
@@ -557,7 +531,7 @@ Proof.
   assert (Hmid : mid (fr_code (m_fr m)) (fr_src (m_fr m)) (fr_pc (m_fr m)) (m_fr m1)).
   { rewrite Hfr. unfold mid. split; [exact F|]. split; [|reflexivity]. destruct F as (_ & _ & Ht & _). lia. }
   pose proof (C01_step_no_panic_partial (exec f E) f E _ _ _ Hpc Hft IH op o m1 _ Hmid
-                (code_wf_nth _ _ _ W1 Hn) (spans_wf_nth _ _ _ _ W2 Hn)) as HQ.
+                (code_wf_nth _ _ _ W1 Hn)) as HQ.
   destruct (step (exec f E) f E {| i_op := op; i_arg := o |} m1) as [m2|m2|e m2|s| |s]; try exact Logic.I.
   - apply IH. cbn [Q] in HQ. destruct HQ as [F2 P2].
     unfold machine_ok; cbn [m_fr]. unfold frame_ok in *. fr_unfold.
@@ -566,12 +540,12 @@ Proof.
 Qed.
 
 Theorem C01_run_no_panic_anystate : forall E c src,
-  code_wf c = true -> spans_wf (Some src) c = true -> ftab_wf (e_ftab E) = true ->
+  code_wf c = true -> ftab_wf (e_ftab E) = true ->
   forall fuel st, match run fuel E c src st with OPanic s => allowed s | _ => True end.
 Proof.
-  intros E c src W1 W2 Hft fuel st. unfold run.
+  intros E c src W1 Hft fuel st. unfold run.
   match goal with |- context [exec fuel E ?m] =>
-    pose proof (C01_exec_no_panic_anystate E Hft fuel m (new_frame_machine_ok _ _ _ W1 W2)) as H;
+    pose proof (C01_exec_no_panic_anystate E Hft fuel m (new_frame_machine_ok _ _ _ W1)) as H;
     destruct (exec fuel E m) end; try exact Logic.I. exact H.
 Qed.
 
@@ -684,13 +658,17 @@ Example non_wf_ldfs_panics :
   code_wf [I OpLdFs (OInt (-1000)); I OpHalt ONil] = false /\
   run 100 (env0 []) [I OpLdFs (OInt (-1000)); I OpHalt ONil] "" st0 = OPanic "stack index 1000".
 Proof. split; [reflexivity|vm_compute; reflexivity]. Qed.
-(* a span outside the text: why spans_wf is asked for (dice state open, default sides) *)
-Example non_wf_span_panics :
+(* a span outside the text (dice state open, default sides): until the repair e540a42 of /repo this was a Go panic
+   ("slice bounds out of range", reachable through left-over code in a computed value: `&x = 0 ? 1, 2d ?` then `x`) and
+   the reason spans_wf was asked for; the repaired code — and the model — skip the rewrite of the detail text *)
+Example non_wf_span_no_longer_panics :
   code_wf [I OpDiceInit ONil; I OpMarkDetail (OSpan 0 9); I OpPushDefExpr ONil; I OpHalt ONil] = true /\
   spans_wf (Some "d"%string) [I OpDiceInit ONil; I OpMarkDetail (OSpan 0 9); I OpPushDefExpr ONil; I OpHalt ONil] = false /\
-  run 100 (env0 []) [I OpDiceInit ONil; I OpMarkDetail (OSpan 0 9); I OpPushDefExpr ONil; I OpHalt ONil] "d" st0
-  = OPanic "slice bounds out of range (push.def_expr)".
-Proof. split; [reflexivity|]. split; [reflexivity|vm_compute; reflexivity]. Qed.
+  match run 100 (env0 []) [I OpDiceInit ONil; I OpMarkDetail (OSpan 0 9); I OpPushDefExpr ONil; I OpHalt ONil] "d" st0 with
+  | Val (VInt 100) _ => True
+  | _ => False
+  end.
+Proof. split; [reflexivity|]. split; [reflexivity|vm_compute; exact Logic.I]. Qed.
 
 (* ---- the unrestricted statement is false OF THE MODEL: two sites depend on a value, not on the code.
    (1) an integer outside int64 (the model's VInt carries a Z; a Go IntType cannot hold it) *)
@@ -2265,12 +2243,12 @@ Qed.
 Definition state_good (st : vmstate) : Prop := heap_good (vs_heap st).
 
 Theorem C01_run_no_panic_partial : forall E c src,
-  code_wf c = true -> spans_wf (Some src) c = true -> ftab_wf (e_ftab E) = true ->
+  code_wf c = true -> ftab_wf (e_ftab E) = true ->
   forall fuel st, state_good st -> match run fuel E c src st with OPanic s => s = range_msg | _ => True end.
 Proof.
-  intros E c src W1 W2 Hft fuel st Hst. unfold run.
+  intros E c src W1 Hft fuel st Hst. unfold run.
   match goal with |- context [exec fuel E ?m] =>
-    pose proof (C01_exec_no_panic_partial E Hft fuel m (new_frame_machine_ok _ _ _ W1 W2)) as H;
+    pose proof (C01_exec_no_panic_partial E Hft fuel m (new_frame_machine_ok _ _ _ W1)) as H;
     destruct (exec fuel E m) end; try exact Logic.I.
   apply H. split; [apply new_frame_good|exact Hst].
 Qed.
